@@ -157,4 +157,38 @@ def rule_d(ctx):
     return r
 
 
-RULES = [rule_a, rule_b, rule_c, rule_d]
+
+STRING_CONTENT_WRITERS = ("serializer::Serializer::visit_quoted_string", "serializer::Serializer::visit_unquoted_string")
+
+
+def rule_e(ctx):
+    r = RuleResult("C06-e", "the serializer functions that copy the *contents* of a string value into the output do not consult the output style "
+                   "(whitespace inside a string is part of the value, not formatting)")
+    prog = ctx.prog()
+    n = 0
+    for fn in STRING_CONTENT_WRITERS:
+        b = prog.one(fn)
+        fam = [b] + list(prog.closures_of(b))
+        reads = []
+        for fb in fam:
+            for c in fb.calls():
+                nm = c.name() or ""
+                if nm.endswith("Options::is_compressed") or nm.endswith("Options::style"):
+                    reads.append(c)
+            for bb, i, pl, rv, st in fb.assignments():
+                for opnd in ([rv.get("op")] if rv.get("k") == "use" else []):
+                    if isinstance(opnd, dict) and "p" in opnd and any(e.get("k") == "field" and e.get("n") == "style" for e in opnd["p"].get("p", [])):
+                        reads.append(None)
+        n += 1
+        key = "%s|style-independent" % fn.rsplit("::", 1)[-1]
+        if not reads:
+            r.ok(key)
+        else:
+            loc = next((c.loc() for c in reads if c is not None), b.loc())
+            r.violate(key, "%s consults the output style while copying a string's characters: the contents of a string value (for example two spaces inside `url(\"a  b\")`) then "
+                      "differ between expanded and compressed output" % fn, loc)
+    r.floor("string content writers", n, 2)
+    return r
+
+
+RULES = [rule_a, rule_b, rule_c, rule_d, rule_e]
